@@ -16,10 +16,9 @@ Round-2 dimensions:
   re-host     shards are stopped (StopShard; data removed / kept) and hosted again as a new replica of any of the three
               types, or restarted, once or twice, while eight facade objects that asked for nothing / only the other shards /
               only that shard / everything before the stop (each with and without a query during the stopped phase) and a
-              fresh one keep being queried.  The kind monitor is the same (answer = type of the shard AS IT RUNS NOW).
-              A wrong answer that the never-invalidated cache dictates for a shard id this very facade object was
-              successfully asked for during an EARLIER incarnation is listed under suspect_stale_after_rehost /
-              suspect_stale_after_stop in the evidence (coordinator decides); every other wrong answer is a VIOLATION.
+              fresh one keep being queried.  The kind monitor is the same (answer = type of the shard AS IT RUNS NOW);
+              the minimal witnesses of the repaired defect C19-stale-kind-after-rehost (corpus/C19/
+              stale-after-rehost-witnesses.txt) run first.
   error types the error alphabet is not only the dragonboat/context values: wrapped, joined, pointer (nil too), struct,
               slice, map, struct holding slice/map/func/interface, array, string, int, embedding, status-typed errors and
               odd texts go through grpcError/GRPCError, and through Read as the error a state machine's Lookup returns.
@@ -91,6 +90,8 @@ class Block:
              "start_order": self.order}
         if getattr(self, "rehost", None):
             d["stop_and_rehost"] = self.rehost
+        if getattr(self, "corpus", None):
+            d["regression_witness_of"] = self.corpus
         return d
 
 
@@ -273,19 +274,45 @@ def gen_lookup_err_blocks(ck):
     return blocks
 
 
-def stale_dictates(entry_kind, hosted, s):
-    """what a GetSession decided from a cache entry looks like from outside (dragonboat's reaction to the decision)"""
-    if entry_kind == "noop":
-        return "noop"
-    if s not in hosted:
-        return "err"
-    return "panic" if hosted[s] == 3 else "tracked"
+def corpus_blocks():
+    """the regression witnesses of corpus/C19/stale-after-rehost-witnesses.txt as blocks (run first)"""
+    path = os.path.join(os.path.dirname(os.path.abspath(__file__)), "..", "..", "corpus", "C19", "stale-after-rehost-witnesses.txt")
+    blocks, cur = [], None
+    for line in open(path).read().splitlines():
+        line = line.strip()
+        if not line or line.startswith("#"):
+            continue
+        f = line.split()
+        if f[0] == "NH":
+            cur = Block({}, [])
+            cur.corpus = "corpus/C19/stale-after-rehost-witnesses.txt"
+            blocks.append(cur)
+            cur.add(line)
+        elif cur is None:
+            continue
+        elif f[0] == "S":
+            cur.types.setdefault(int(f[1]), int(f[2]))
+            if int(f[1]) not in cur.order:
+                cur.order.append(int(f[1]))
+            cur.add(line, kind="S", shard=int(f[1]), typ=int(f[2]))
+        elif f[0] == "K":
+            cur.add(line, kind="K", shard=int(f[1]), mode=f[2])
+        elif f[0] == "Q":
+            cur.add(line, kind="Q", api=f[1], shard=int(f[2]))
+        elif f[0] in ("P", "R"):
+            cur.add(line, kind=f[0], api=f[1], shard=int(f[2]), path=f[3], arg=f[4])
+        elif f[0] == "END":
+            cur.add(line)
+            cur = None
+        else:
+            cur.add(line)
+    return blocks
 
 
 def gen_blocks(ck):
     rng = ck.rng
     nmax = 3 if ck.tier == "quick" else 4
-    blocks = []
+    blocks = corpus_blocks()
     i = 0
     for n in range(1, nmax + 1):
         ids = list(range(1, n + 1))
@@ -477,8 +504,7 @@ def run(ck):
     stats = {"Q": 0, "Q_tracked": 0, "Q_noop": 0, "Q_err": 0, "Q_panic": 0, "P": 0, "R": 0, "X": 0, "closed_nodehost_calls": 0}
     items = []          # (coq term, info)
     other_ix = {}
-    suspects = {"rehost": [], "stop": []}     # stale answers for a shard id the facade object was asked for in an earlier incarnation
-    stats.update({"K": 0, "E": 0, "Q_after_rehost": 0, "Q_first_ever_after_rehost": 0, "Q_stale_entry_same_kind": 0})
+    stats.update({"K": 0, "E": 0, "Q_after_rehost": 0, "Q_first_ever_after_rehost": 0, "Q_asked_before_with_other_kind": 0, "Q_while_stopped": 0})
     mangled = {}        # error names whose status message is not the error's text
     lookup_names = set()
 
@@ -493,7 +519,8 @@ def run(ck):
         pending_e = {}
         started = []        # (coq event, text) of the starts / stops so far, in execution order
         inc = {}            # shard id -> number of times it has been started on this NodeHost (incarnation)
-        sim = {}            # facade object -> shard id -> (kind, incarnation): the entries a never-invalidated cache holds
+        sim = {}            # facade object -> shard id -> (kind, incarnation) of the last successful query (coverage + replay text only)
+        ever = set()        # shard ids that have been hosted on this NodeHost
         for k, ((text, meta), o) in enumerate(zip(b.lines, obs)):
             kind = meta.get("kind")
             if kind == "S":
@@ -504,6 +531,7 @@ def run(ck):
                     other_fail.append(("NodeHost reports another state machine type than the one started",
                                        {"kind": "executor-type", "block": b.describe(), "line": text, "obs": o}, False))
                 hosted[meta["shard"]] = meta["typ"]
+                ever.add(meta["shard"])
                 inc[meta["shard"]] = inc.get(meta["shard"], 0) + 1
                 for a in api_events:
                     api_events[a].append("EStart %d %s" % (meta["shard"], TCOQ[meta["typ"]]))
@@ -545,26 +573,18 @@ def run(ck):
                 api_obs[a].append({"tracked": 0, "noop": 1, "err": 2}.get(okind, 3))
                 good = (okind == exp)
                 why = None
-                # the entry a never-invalidated cache holds for s (made by an earlier successful query for s through a)
+                # what this facade object was told about s before (coverage counters and replay text; the verdict does not use it)
                 entry = sim[a].get(s)
-                stale = entry is not None and (s not in hosted or entry[1] != inc.get(s))
                 if inc.get(s, 0) > 1 and s in hosted:
                     stats["Q_after_rehost"] += 1
                     if entry is None:
                         stats["Q_first_ever_after_rehost"] += 1
-                    elif stale and good:
-                        stats["Q_stale_entry_same_kind"] += 1
-                if entry is None and s in hosted:
-                    sim[a][s] = (exp, inc.get(s))
-                if not good and stale and okind == stale_dictates(entry[0], hosted, s):
-                    cls = "rehost" if s in hosted else "stop"
-                    suspects[cls].append(((len(hosted), len(api_trace[a])), {
-                        "hosting_now": {str(x): TNAME[t] for x, t in sorted(hosted.items())},
-                        "facade_object_saw": list(api_trace[a]), "query": "GetSession(%d)" % s, "observed": " ".join(o)[:120],
-                        "required": exp, "entry_made_when_shard_was": entry[0],
-                        "verif_in": [t for (t, m) in b.lines[:k + 1] if t == "NH" or m.get("kind") in ("S", "K") or t == "A " + a or
-                                     (m.get("kind") == "Q" and m.get("api") == a)] + ["END"]}))
-                    continue
+                    elif entry[1] != inc.get(s) and entry[0] != exp:
+                        stats["Q_asked_before_with_other_kind"] += 1
+                if s in ever and s not in hosted:
+                    stats["Q_while_stopped"] += 1
+                if s in hosted and okind in ("tracked", "noop"):
+                    sim[a][s] = (okind, inc.get(s))
                 if not good:
                     if okind == "panic":
                         why = "GetSession(%d) crashes (Go panic: %s); shard %d is %s" % (
@@ -592,7 +612,8 @@ def run(ck):
                         replay = {"kind": "monitor:kind", "hosting": {str(x): TNAME[t] for x, t in sorted(hosted.items())},
                                   "start_order": [x for x in b.order if x in hosted],
                                   "incarnation_of_the_shard": inc.get(s, 0),
-                                  "asked_for_this_shard_before_through_this_object": entry is not None,
+                                  "this_object_was_answered_for_this_shard_before": None if entry is None else
+                                  "%s, in incarnation %d" % entry,
                                   "facade_object_saw": list(api_trace[a]), "failing_query": "GetSession(%d)" % s,
                                   "observed": " ".join(o), "required": exp,
                                   "verif_in": [t for (t, m) in b.lines[:k + 1] if t == "NH" or m.get("kind") in ("S", "K") or t == "A " + a or
@@ -730,9 +751,7 @@ def run(ck):
             starts = [e for e in evs if e.startswith("EStart")]
             qs = [e for e in evs if e.startswith("EQuery")]
             info = ("K", b.describe(), a, api_trace[a])
-            if any(e.startswith("EStop") for e in evs):
-                term = "kcase_s %s %s" % (clist(evs), clist(api_obs[a]))
-            elif evs == starts + qs:
+            if evs == starts + qs:
                 term = "kq %s %s %s" % (clist(["(%s,%d)" % (e.split()[1], {"Regular": 1, "Concurrent": 2, "OnDisk": 3}[e.split()[2]]) for e in starts]),
                                         clist([e.split()[1] for e in qs]), clist(api_obs[a]))
             else:
@@ -756,18 +775,6 @@ def run(ck):
         ck.violation(why, replay)
         if len(seen_why) >= 3:
             break
-
-    # ---- stale answers after a stop / re-host of a shard id the facade object had been asked for before (not a VIOLATION
-    # until the coordinator decides; the model reproduces them: FacadeRun.kcase_s, props/C19.v C19_ex_stale_after_rehost)
-    for cls, key in (("rehost", "suspect_stale_after_rehost"), ("stop", "suspect_stale_after_stop")):
-        lst = sorted(suspects[cls], key=lambda x: x[0])
-        seen_s = {}
-        for (_, d) in lst:
-            c = (d["entry_made_when_shard_was"], d["required"], d["observed"].split()[0])
-            seen_s.setdefault(c, d)
-        ck.cov[key] = [dict(d, n_in_this_run=sum(1 for (_, e) in lst if (e["entry_made_when_shard_was"], e["required"], e["observed"].split()[0]) == c))
-                       for c, d in seen_s.items()]
-        ck.cov[key + "_count"] = len(lst)
 
     # ---- session conversions
     tres = [res.get(base + 1 + i, [[None, "missing"]])[0][1:] for i in range(len(tvals))]
